@@ -114,3 +114,110 @@ Proof.
   induction rs as [|r t IH]; intros b H; cbn [write_regions total] in *; [reflexivity|].
   destruct r as [n|d]; cbn [rlen] in *; rewrite app_length, IH by (rewrite skipn_length; lia); rewrite ?repeat_length, skipn_length; lia.
 Qed.
+
+(* ---------------- (3) ordered consumption ---------------- *)
+Section Merge.
+  Context {A : Type} (res : nat -> A).
+
+  Lemma take_parked_some : forall k (l : list (nat * A)) v rest,
+    take_parked k l = Some (v, rest) ->
+    exists l1 l2, l = l1 ++ (k, v) :: l2 /\ rest = l1 ++ l2 /\ ~ In k (map fst l1).
+  Proof.
+    induction l as [|[g w] r IH]; intros v rest H; cbn [take_parked] in H; [discriminate|].
+    destruct (Nat.eqb_spec g k) as [->|Hne].
+    - inversion H; subst. exists [], rest. repeat split; auto.
+    - destruct (take_parked k r) as [[w' r']|] eqn:E; [|discriminate]. inversion H; subst.
+      destruct (IH _ _ eq_refl) as (l1 & l2 & -> & -> & Hn). exists ((g, w) :: l1), l2. repeat split; auto.
+      cbn. intros [H1|H1]; [congruence|contradiction].
+  Qed.
+  Lemma take_parked_none : forall k (l : list (nat * A)), take_parked k l = None -> ~ In k (map fst l).
+  Proof.
+    induction l as [|[g w] r IH]; intros H; cbn [take_parked] in H; [intros []|].
+    destruct (Nat.eqb_spec g k) as [->|Hne]; [discriminate|]. destruct (take_parked k r) as [[w' r']|] eqn:E; [discriminate|].
+    cbn. intros [H1|H1]; [congruence|]. exact (IH eq_refl H1).
+  Qed.
+
+  (* the invariant: consumed is the results of groups 0..next-1, in order; parked holds completed groups beyond next *)
+  Definition minv (done : list nat) (m : merger A) : Prop :=
+    consumed m = map res (seq 0 (next m)) /\
+    NoDup (map fst (parked m)) /\
+    (forall g v, In (g, v) (parked m) -> v = res g /\ next m <= g) /\
+    (forall g, In g done <-> g < next m \/ In g (map fst (parked m))).
+
+  Lemma drain_inv : forall fuel done m, minv done m -> length (parked m) <= fuel ->
+    minv done (drain fuel m) /\ ~ In (next (drain fuel m)) (map fst (parked (drain fuel m))).
+  Proof.
+    induction fuel as [|f IH]; intros done m Hi Hf; [cbn [drain]; split; [exact Hi|]; destruct (parked m); [intros []|cbn in Hf; lia]|]. cbn [drain].
+    destruct (take_parked (next m) (parked m)) as [[v rest]|] eqn:E.
+    - destruct (take_parked_some _ _ _ _ E) as (l1 & l2 & Hp & Hr & Hn).
+      destruct Hi as (I1 & I2 & I3 & I4).
+      assert (Hv : v = res (next m)). { apply (I3 (next m) v). rewrite Hp. apply in_or_app. right; left; reflexivity. }
+      apply IH.
+      + unfold minv; cbn [next parked consumed]. repeat split.
+        * rewrite I1, seq_S, map_app. cbn. rewrite Hv. reflexivity.
+        * rewrite Hp, map_app in I2. cbn in I2. apply NoDup_remove_1 in I2. rewrite Hr, map_app. exact I2.
+        * assert (In (g, v0) (parked m)) by (rewrite Hp; rewrite Hr in H; apply in_app_or in H; apply in_or_app; destruct H; [left|right; right]; assumption).
+          apply (I3 _ _ H0).
+        * assert (Hin : In (g, v0) (parked m)) by (rewrite Hp; rewrite Hr in H; apply in_app_or in H; apply in_or_app; destruct H; [left|right; right]; assumption).
+          destruct (I3 _ _ Hin) as (_ & Hle). destruct (Nat.eq_dec g (next m)) as [->|Hne]; [|lia].
+          exfalso. rewrite Hp, map_app in I2. cbn in I2. apply NoDup_remove_2 in I2. apply I2. rewrite <- map_app, <- Hr.
+          change (next m) with (fst (next m, v0)). apply in_map. exact H.
+        * intros Hg. apply I4 in Hg. destruct Hg as [Hg|Hg]; [left; lia|].
+          rewrite Hp, map_app in Hg. cbn in Hg. apply in_app_or in Hg. rewrite Hr, map_app.
+          destruct Hg as [Hg|[Hg|Hg]]; [right; apply in_or_app; left; exact Hg|left; lia|right; apply in_or_app; right; exact Hg].
+        * intros [Hg|Hg]; apply I4.
+          -- destruct (Nat.eq_dec g (next m)) as [->|Hne]; [right; rewrite Hp, map_app; apply in_or_app; right; left; reflexivity|left; lia].
+          -- right. rewrite Hr, map_app in Hg. rewrite Hp, map_app. apply in_app_or in Hg. apply in_or_app. destruct Hg; [left|right; right]; assumption.
+      + cbn [parked]. rewrite Hp, app_length in Hf. cbn [length] in Hf. rewrite Hr, app_length. clear - Hf. lia.
+    - split; [exact Hi|]. apply take_parked_none. exact E.
+  Qed.
+
+  Lemma complete_inv done m g : minv done m -> ~ In g done ->
+    minv (g :: done) (complete res m g) /\ ~ In (next (complete res m g)) (map fst (parked (complete res m g))).
+  Proof.
+    intros (I1 & I2 & I3 & I4) Hg. unfold complete. apply drain_inv; [|cbn; lia].
+    unfold minv; cbn [next parked consumed]. repeat split.
+    - exact I1.
+    - cbn. constructor; [|exact I2]. intros H. apply Hg. apply I4. right; exact H.
+    - destruct H as [H|H]; [inversion H; reflexivity|apply (I3 _ _ H)].
+    - destruct H as [H|H]; [inversion H; subst|apply (I3 _ _ H)].
+      destruct (le_lt_dec (next m) g0) as [Hl|Hl]; [exact Hl|]. exfalso. apply Hg. apply I4. left; exact Hl.
+    - intros [->|H]; [right; left; reflexivity|]. apply I4 in H. destruct H; [left|right; right]; assumption.
+    - intros [H|[H|H]]; [right; apply I4; left; exact H|left; exact H|right; apply I4; right; exact H].
+  Qed.
+
+  Lemma merge_fold_inv : forall order done m, minv done m -> ~ In (next m) (map fst (parked m)) -> NoDup order -> (forall g, In g order -> ~ In g done) ->
+    let m' := fold_left (complete res) order m in
+    minv (rev order ++ done) m' /\ ~ In (next m') (map fst (parked m')).
+  Proof.
+    induction order as [|g r IH]; intros done m Hi Hd Hn Hfresh; cbn [fold_left rev app]; [split; assumption|].
+    inversion Hn as [|? ? Hg Hr]; subst.
+    destruct (complete_inv done m g Hi (Hfresh g (or_introl eq_refl))) as (Hi' & Hd').
+    specialize (IH (g :: done) _ Hi' Hd' Hr).
+    rewrite <- app_assoc. cbn [app]. apply IH. intros x Hx [->|Hx']; [contradiction|]. apply (Hfresh x (or_intror Hx) Hx').
+  Qed.
+
+  Theorem merge_all_in_group_order n order :
+    Permutation order (seq 0 n) ->
+    let m := merge_all res order in consumed m = map res (seq 0 n) /\ parked m = [] /\ next m = n.
+  Proof.
+    intros Hp. cbn zeta. unfold merge_all.
+    assert (Hn : NoDup order) by (eapply Permutation_NoDup; [apply Permutation_sym; exact Hp|apply seq_NoDup]).
+    destruct (merge_fold_inv order [] {| next := 0; parked := []; consumed := [] |}) as ((I1 & I2 & I3 & I4) & Hd); auto.
+    1: { unfold minv; cbn. repeat split; auto; try constructor; try contradiction; try lia. all: try (intros [H|[]]; lia). }
+    set (m := fold_left (complete res) order _) in *.
+    rewrite app_nil_r in I4.
+    assert (Hdone : forall g, In g (rev order) <-> g < n).
+    { intros g. rewrite <- in_rev. split; intros H.
+      - apply (Permutation_in _ Hp) in H. apply in_seq in H. lia.
+      - apply (Permutation_in _ (Permutation_sym Hp)). apply in_seq. lia. }
+    assert (Hnext : next m = n).
+    { destruct (lt_eq_lt_dec (next m) n) as [[Hlt|Heq]|Hgt]; [|exact Heq|].
+      - exfalso. apply Hdone in Hlt. apply I4 in Hlt. destruct Hlt as [Hlt|Hlt]; [lia|contradiction].
+      - exfalso. assert (In n (rev order)) by (apply I4; left; exact Hgt). apply Hdone in H. lia. }
+    split; [rewrite I1, Hnext; reflexivity|]. split; [|exact Hnext].
+    destruct (parked m) as [|[g v] r] eqn:E; [reflexivity|]. exfalso.
+    destruct (I3 g v (or_introl eq_refl)) as (_ & Hle).
+    assert (In g (rev order)) by (apply I4; right; left; reflexivity). apply Hdone in H. lia.
+  Qed.
+End Merge.
